@@ -401,6 +401,19 @@ fn yield_point(kind: usize) {
 }
 
 // ---------------------------------------------------------------------------
+// CPU-spin guard support: every interposed call bumps CALLS; engines set
+// IN_LIB while the code under test runs.  A virtual-time (CPU) timer in the
+// worker turns "seconds of CPU inside the library without a single system
+// call" into a reported case instead of a stuck worker (see runner.rs).
+// ---------------------------------------------------------------------------
+pub static CALLS: AtomicU64 = AtomicU64::new(0);
+pub static IN_LIB: AtomicBool = AtomicBool::new(false);
+#[inline]
+fn bump() {
+    CALLS.fetch_add(1, Relaxed);
+}
+
+// ---------------------------------------------------------------------------
 // Raw passthroughs usable by the harness itself
 // ---------------------------------------------------------------------------
 
@@ -446,6 +459,7 @@ extern "C" {
 
 #[no_mangle]
 pub unsafe extern "C" fn read(fd: c_int, buf: *mut c_void, n: size_t) -> ssize_t {
+    bump();
     if let Some(obj) = routed(fd) {
         if let Some(s) = sim() {
             let sl = std::slice::from_raw_parts_mut(buf as *mut u8, n);
@@ -458,6 +472,7 @@ pub unsafe extern "C" fn read(fd: c_int, buf: *mut c_void, n: size_t) -> ssize_t
 
 #[no_mangle]
 pub unsafe extern "C" fn write(fd: c_int, buf: *const c_void, n: size_t) -> ssize_t {
+    bump();
     if let Some(obj) = routed(fd) {
         if let Some(s) = sim() {
             let sl = std::slice::from_raw_parts(buf as *const u8, n);
@@ -469,6 +484,7 @@ pub unsafe extern "C" fn write(fd: c_int, buf: *const c_void, n: size_t) -> ssiz
 
 #[no_mangle]
 pub unsafe extern "C" fn close(fd: c_int) -> c_int {
+    bump();
     if let Some(obj) = routed(fd) {
         if let Some(s) = sim() {
             unroute_fd(fd);
@@ -488,6 +504,7 @@ pub unsafe extern "C" fn close(fd: c_int) -> c_int {
 
 #[no_mangle]
 pub unsafe extern "C" fn poll(fds: *mut pollfd, nfds: nfds_t, timeout: c_int) -> c_int {
+    bump();
     if let Some(s) = sim() {
         let sl = std::slice::from_raw_parts_mut(fds, nfds as usize);
         if sl.iter().any(|p| routed(p.fd).is_some()) {
@@ -499,6 +516,7 @@ pub unsafe extern "C" fn poll(fds: *mut pollfd, nfds: nfds_t, timeout: c_int) ->
 
 #[no_mangle]
 pub unsafe extern "C" fn pipe(fds: *mut c_int) -> c_int {
+    bump();
     yield_point(K_PIPE);
     if let Some(e) = account(K_PIPE) {
         set_errno(e);
@@ -544,6 +562,7 @@ pub unsafe extern "C" fn fcntl(fd: c_int, cmd: c_int, arg: c_long) -> c_int {
 
 #[no_mangle]
 pub unsafe extern "C" fn fork() -> pid_t {
+    bump();
     yield_point(K_FORK);
     if let Some(e) = account(K_FORK) {
         set_errno(e);
@@ -653,6 +672,7 @@ pub unsafe extern "C" fn execv(path: *const c_char, argv: *const *const c_char) 
 
 #[no_mangle]
 pub unsafe extern "C" fn waitpid(pid: pid_t, status: *mut c_int, opts: c_int) -> pid_t {
+    bump();
     yield_point(K_WAITPID);
     if SIM_PROC.load(Relaxed) {
         if let Some(s) = sim() {
@@ -670,6 +690,7 @@ pub unsafe extern "C" fn waitpid(pid: pid_t, status: *mut c_int, opts: c_int) ->
 
 #[no_mangle]
 pub unsafe extern "C" fn kill(pid: pid_t, sig: c_int) -> c_int {
+    bump();
     if SIM_PROC.load(Relaxed) {
         if let Some(s) = sim() {
             return s.kill(pid, sig);
@@ -682,6 +703,7 @@ pub unsafe extern "C" fn kill(pid: pid_t, sig: c_int) -> c_int {
 
 #[no_mangle]
 pub unsafe extern "C" fn clock_gettime(clk: libc::clockid_t, ts: *mut timespec) -> c_int {
+    bump();
     if clk == libc::CLOCK_MONOTONIC && SIM_CLOCK.load(Relaxed) {
         if let Some(s) = sim() {
             s.clock_tick();
@@ -696,6 +718,7 @@ pub unsafe extern "C" fn clock_gettime(clk: libc::clockid_t, ts: *mut timespec) 
 
 #[no_mangle]
 pub unsafe extern "C" fn nanosleep(req: *const timespec, rem: *mut timespec) -> c_int {
+    bump();
     if SIM_CLOCK.load(Relaxed) {
         if let Some(s) = sim() {
             let ns = (*req).tv_sec as i64 * 1_000_000_000 + (*req).tv_nsec as i64;
@@ -708,6 +731,7 @@ pub unsafe extern "C" fn nanosleep(req: *const timespec, rem: *mut timespec) -> 
 
 #[no_mangle]
 pub unsafe extern "C" fn clock_nanosleep(clk: libc::clockid_t, flags: c_int, req: *const timespec, rem: *mut timespec) -> c_int {
+    bump();
     if SIM_CLOCK.load(Relaxed) {
         if let Some(s) = sim() {
             let mut ns = (*req).tv_sec as i64 * 1_000_000_000 + (*req).tv_nsec as i64;
